@@ -490,6 +490,12 @@ func vLoopyGen(r *vRand, tier string, idx int) ([]int64, [][]int64) {
 		// with endStream (CloseSend): a zero-length DATA frame with END_STREAM, no panic
 		return []int64{0}, [][]int64{{4, 1, 3, vLoopyHLen(3), 0}, {6, 1, 5, 100, 0}, {10}, {10}, {2, 50}, {6, 1, 0, 0, 1}, {10}, {10},
 			{4, 3, 3, vLoopyHLen(3), 0}, {6, 3, 5, 20000, 0}, {10}, {10}, {10}, {2, 0}, {6, 3, 0, 0, 0}, {10}, {6, 3, 0, 0, 1}, {10}, {10}}
+	case 12:
+		// response headers (non-final serverHeaders) for a stream that is no longer established: after
+		// cleanupStream with RST_STREAM, after cleanupStream without, after trailers, and for a never-registered id
+		return []int64{1}, [][]int64{{3, 1}, {3, 3}, {3, 5}, {7, 1, 1}, {5, 1, 0, 5, vLoopyHLen(5), 0}, {7, 3, 0}, {5, 3, 0, 5, vLoopyHLen(5), 0},
+			{5, 5, 1, 5, vLoopyHLen(5), 0}, {5, 5, 0, 5, vLoopyHLen(5), 0}, {5, 7, 0, 5, vLoopyHLen(5), 0}, {5, 1, 1, 5, vLoopyHLen(5), 0},
+			{6, 1, 5, 10, 0}, {10}}
 	case 10:
 		// on the client earlyAbortStream is an error: loopy exits
 		return []int64{0}, [][]int64{{4, 1, 3, vLoopyHLen(3), 0}, {14, 1001, 40000, vLoopyHLen(40000), 0}, {10}}
@@ -659,6 +665,9 @@ func vLoopyGen(r *vRand, tier string, idx int) ([]int64, [][]int64) {
 				id := pick()
 				es := r.Chance(50)
 				ops = append(ops, []int64{5, id, vB(es), n, vLoopyHLen(n), vB(r.Chance(40))})
+				if es && r.Chance(40) {
+					ops = append(ops, []int64{10}, []int64{10}, []int64{5, id, 0, 5, vLoopyHLen(5), 0})
+				}
 			}
 		case k < 91:
 			id := pick()
@@ -668,6 +677,13 @@ func vLoopyGen(r *vRand, tier string, idx int) ([]int64, [][]int64) {
 					ids = append(ids[:i:i], ids[i+1:]...)
 					closed = append(closed, id)
 					break
+				}
+			}
+			if sd == 1 && r.Chance(40) {
+				// late response headers / trailers / data for the stream just cleaned up: must stay silent
+				ops = append(ops, []int64{5, id, vB(r.Chance(30)), 5, vLoopyHLen(5), 0})
+				if r.Bool() && !ended[id] {
+					ops = append(ops, []int64{6, id, 5, 10, 0}, []int64{10})
 				}
 			}
 		case k < 92:
